@@ -283,6 +283,9 @@ func (session *ServerCommandSession) handleAnnounce(requestCtx nazahttp.HttpReqM
 	session.pubSession.InitWithSdp(sdpCtx)
 
 	if err = session.observer.OnNewRtspPubSession(session.pubSession); err != nil {
+		// 上层拒绝了这个pub session（鉴权失败、流已存在等），上层从来没有接纳过它，
+		// 所以连接结束时也不能再回调 OnDelRtspPubSession
+		session.pubSession = nil
 		return err
 	}
 
@@ -324,6 +327,8 @@ func (session *ServerCommandSession) handleDescribe(requestCtx nazahttp.HttpReqM
 	ok, rawSdp := session.observer.OnNewRtspSubSessionDescribe(session.subSession)
 	if !ok {
 		Log.Warnf("[%s] force close subSession.", session.uniqueKey)
+		// 同上，被上层拒绝的sub session，连接结束时不能再回调 OnDelRtspSubSession
+		session.subSession = nil
 		return base.ErrRtspClosedByObserver
 	}
 
